@@ -64,8 +64,8 @@ theorem exec_count_frame (cfg : Cfg) (m : Mem) (th : Thread) (i : Nat) (hwf : Th
     | (simp only; (repeat' split) <;> rfl)
 
 theorem ms_dispatch (cfg : Cfg) (m : Mem) (th : Thread) (c : Cmd) (hc : CmdMS cfg.cap c)
-    (hp : ∀ c ∈ th.prog, CmdMS cfg.cap c) (hl : th.lost = 0) : ThreadMS cfg m (dispatch th c) := by
-  cases c <;> simp only [dispatch, ret] <;> (try split) <;>
+    (hp : ∀ c ∈ th.prog, CmdMS cfg.cap c) (hl : th.lost = 0) : ThreadMS cfg m (dispatch cfg th c) := by
+  cases c <;> simp only [dispatch, ret] <;> (repeat' split) <;>
     (refine ⟨?_, ?_, ?_, ?_, ?_, ?_⟩ <;> simp_all [pcFresh, pendPC, pendO, CmdMS])
 
 theorem exec_ms (cfg : Cfg) (m : Mem) (th : Thread) (hwf : ThreadWf cfg th)
